@@ -103,6 +103,9 @@ class GenProxy:
     def _run(self):
         sub = Interp(self.interp.ctx, stubs=self.interp.stubs, max_steps=self.interp.max_steps, classes=self.interp.classes)
         sub.steps = self.interp.steps
+        sub.set_order = self.interp.set_order
+        if hasattr(self.interp, 'superclasses'):
+            sub.superclasses = self.interp.superclasses
 
         def hook(v):
             self.q_out.put(('yield', v))
@@ -161,6 +164,9 @@ class Interp:
         self.max_steps = max_steps
         self.classes = classes or {}        # class name -> python callable building an Obj
         self.depth = 0
+        # None: sets are iterated in the host's order (as before); 'asc' / 'desc': in ascending / descending order of the printed
+        # elements -- a rule that wants a deterministic verdict and two different internal choice orders runs its models under both
+        self.set_order = None
 
     # -- functions ------------------------------------------------------------------------------------------------------
     def apply(self, f, fn, args):
@@ -330,6 +336,24 @@ class Interp:
         if isinstance(st, ast.FunctionDef):
             env[st.name] = Closure(f, st, env)
             return
+        if isinstance(st, ast.Delete):
+            for t in st.targets:
+                if isinstance(t, ast.Subscript) and not isinstance(t.slice, ast.Slice):
+                    base = self.ev(f, t.value, env)
+                    key = self.ev(f, t.slice, env)
+                    if not isinstance(base, (list, dict)):
+                        raise Unsupported('del on ' + type(base).__name__)
+                    try:
+                        del base[key]
+                    except KeyError:
+                        raise Raised('KeyError')
+                    except IndexError:
+                        raise Raised('IndexError')
+                elif isinstance(t, ast.Name) and t.id in env:
+                    del env[t.id]
+                else:
+                    raise Unsupported('del of ' + type(t).__name__)
+            return
         raise Unsupported('statement ' + type(st).__name__)
 
     def assign(self, f, t, v, env):
@@ -373,6 +397,8 @@ class Interp:
         return bool(v)
 
     def iterate(self, v):
+        if self.set_order is not None and isinstance(v, (set, frozenset)):
+            return sorted(v, key=repr, reverse=(self.set_order == 'desc'))
         if isinstance(v, (list, tuple, set, frozenset, dict, str, range)) or hasattr(v, '__next__') or type(v).__name__ in ('dict_items', 'dict_keys', 'dict_values', 'enumerate', 'zip', 'reversed', 'count', 'GenProxy'):
             return v
         raise Unsupported('iteration over ' + type(v).__name__)
@@ -617,6 +643,12 @@ class Interp:
                     if c.name == base._cls and name in c.methods and not c.module.name.startswith('template:'):
                         return self.call(c.methods[name], [base] + args, kwargs)
                 raise Unsupported('method {} of {}'.format(name, base._cls))
+            if self.set_order is not None and isinstance(base, set) and name == 'pop' and not args:
+                if not base:
+                    raise Raised('KeyError')
+                x0 = sorted(base, key=repr, reverse=(self.set_order == 'desc'))[0]
+                base.discard(x0)
+                return x0
             for ty, names in SAFE_METHODS.items():
                 if isinstance(base, ty) and name in names:
                     if isinstance(base, str) and name == 'join':
